@@ -47,6 +47,10 @@ VARIANTS = [
     ('t_fixedfalse', {'terminal': True, 'fixed': False, 'center': [2, 1]}),
     ('t_falsefixed', {'fixed': False, 'terminal': True, 'center': [2, 1]}),
     ('s_fixedfalse', {'fixed': False, 'area': 3}),
+    # decimal coordinates, trunk listed last: recognition moves it to the front, so that a centre accumulated in the
+    # listed order and one accumulated in the stored order differ in the last bit
+    ('s_trunk_last', {'area': 8, 'rectangles': [[4.1, 2, 1, 2], [1.1, 2, 1, 2], [2.6, 2, 2, 2]]}),
+    ('h_trunk_last', {'hard': True, 'rectangles': [[4.1, 2, 1, 2], [1.1, 2, 1, 2], [2.6, 2, 2, 2]]}),
 ]
 VIDX = {n: i for i, (n, _) in enumerate(VARIANTS)}
 WEIGHTS = [None, 1, 2, 0.5]
